@@ -54,7 +54,9 @@ pub fn obs_of(r: &Request) -> ReqObs {
             Version::Http11 => 1,
         },
         uri: format!("{:?}", r.uri()),
-        abs_path: r.uri().get_abs_path().to_string(),
+        // get_abs_path is itself code under test: a panic in it must not take the harness down
+        abs_path: catch_unwind(AssertUnwindSafe(|| r.uri().get_abs_path().to_string()))
+            .unwrap_or_else(|_| "\u{0}<get_abs_path panicked>".to_string()),
         content_length: r.headers.content_length(),
         expect: r.headers.expect(),
         chunked: r.headers.chunked(),
